@@ -278,8 +278,14 @@ class Driver:
                 stoppable = t.state.VALUE.name in ('QUEUED', 'INITIALIZING', 'UPLOADING', 'DOWNLOADING')
                 in_slots = [e for e in (self.slot_entry(t, 'RQ'), self.slot_entry(t, 'TR')) if e is not None]
                 live_before = self.live_entries(t)
-                coro = {'A': tw.tm.abort, 'P': tw.tm.pause, 'X': tw.tm.remove}[kind](t)
-                ok, exc = tw.call(coro)
+                api = {'A': tw.tm.abort, 'P': tw.tm.pause, 'X': tw.tm.remove}[kind]
+                at_return = {}
+
+                async def stopper():
+                    await api(t)
+                    # the very instant the call returned (no loop iteration in between)
+                    at_return['live'] = self.live_entries(t)
+                ok, exc = tw.call(stopper())
                 if ok and (stoppable or kind == 'X'):
                     ue[k] = [{'A': 'Abort', 'P': 'Pause', 'X': 'Remove'}[kind]]
                     if stoppable:
@@ -287,8 +293,8 @@ class Driver:
                                             ('QUEUED', 'INITIALIZING', 'UPLOADING', 'DOWNLOADING') for x in self.ts)
                         self.markers.append({
                             'k': k, 'op': kind, 'wlog': len(tw.wlog), 'fields': self.fields(t), 'connects': self.nconnects(t.username),
-                            'live_at_return': [(e.kind, e.k) for e in self.live_entries(t)],
-                            'slot_survivors': [(e.kind, e.k) for e in in_slots if e in self.live_entries(t)],
+                            'live_at_return': [(e.kind, e.k) for e in at_return.get('live', [])],
+                            'slot_survivors': [(e.kind, e.k) for e in in_slots if e in at_return.get('live', [])],
                             'orphans_at_call': [(e.kind, e.k) for e in live_before if e not in in_slots],
                             'race_children': [x.get_name() for x in asyncio.all_tasks(tw.w.loop) if not x.done()
                                               and x.get_name().startswith((f'direct-connect-{t.username}-', f'indirect-connect-{t.username}-'))],
